@@ -22,7 +22,10 @@ def setup(rep):
     rep.clause("layered-chain", "P", "path_length/tof are sums over the sub-paths, directions are those of the first/last sub-path, "
                "exists iff solutions non-empty")
     rep.clause("layered-snell", "P", "_trace_path: per-layer horizontal advance tan(angle) dz and n_2 sin(angle_2) = n_1 sin(angle_1) at a "
-               "boundary (two uniform layers, below the critical angle)")
+               "boundary (two uniform layers, below the critical angle)"
+               " ; at a reflection between two legs of the same layer the second leg's launch angle carries the invariant "
+               "n(z) sin(angle) to the reflection depth, for an arbitrary index profile of the layer (the obligation that fails on the "
+               "tree before fix 87459b4, defect D14)")
     rep.clause("layered-transmission", "P", "unit Fresnel transmission when both sides of a boundary have the same index")
     rep.clause("layered-dispatch", "P", "each layer is traced with the tracer matching its ice model")
     rep.clause("layered-chain-assembly", "B", "the statement block of LayeredRayTracer.solutions that turns (launch angle, section depths, "
